@@ -66,7 +66,7 @@ fn submit_abandoned(tr: &mut Tracker, b: &[(u64, Vec<Det>)]) {
 }
 
 fn as_history(c: &BatchCase) -> History {
-    History { cfg: c.cfg.clone(), objs: c.objs.clone(), feat_dim: c.feat_dim, ops: vec![] }
+    History { cfg: c.cfg.clone(), objs: c.objs.clone(), feat_dim: c.feat_dim, ops: vec![], scale: 1.0 }
 }
 
 const SITES: [&str; 6] = ["voting.store.write", "voting.job.begin", "batch.scene.dispatched", "store.cmd.end", "voting.id.assigned", "voting.id.assigned"];
@@ -161,7 +161,7 @@ pub fn check_batches(c: &BatchCase) -> CaseResult {
                         };
                         {
                             let want = crate::oracle::geom::exclusive_area(&rb, i) / rb[i].area();
-                            ensure!((stored as f64 - want).abs() <= 2e-3, "batch-own-area", "batch {} scene {}: detection {} is stored with own-area share {} but {} of it is uncovered by the other detections of its scene", bi, scene, i, stored, want);
+                            ensure!((stored as f64 - want).abs() <= 2e-3 + 2.0 * similari::EPS as f64 / rb[i].area(), "batch-own-area", "batch {} scene {}: detection {} is stored with own-area share {} but {} of it is uncovered by the other detections of its scene", bi, scene, i, stored, want);
                         }
                     }
                 }
